@@ -18,16 +18,17 @@ trap 'git -C /repo worktree remove --force $WT 2>/dev/null; rm -rf $WT' EXIT
 PKG=$(python3 -c "import json;print(json.load(open('$SRC/meta.json')).get('demo_package_dir','.'))")
 RX=$(python3 -c "import json;print(json.load(open('$SRC/meta.json')).get('demo_run_regex','TestSeeded'))")
 PROP=$(python3 -c "import json;print(json.load(open('$SRC/meta.json'))['property'])")
+RACE=$(python3 -c "import json;print('-race' if json.load(open('$SRC/meta.json')).get('demo_needs_race_detector') else '')")
 [ $# -eq 0 ] && set -- $PROP
 MODDIR=$WT; TESTPKG=./$PKG/
 if [[ $PKG == cache/* || $PKG == cache ]]; then MODDIR=$WT/cache; TESTPKG=./${PKG#cache/}/; [ "$PKG" == cache ] && TESTPKG=./; fi
 [ "$PKG" == "." ] && TESTPKG=.
 SKIP='TestHandleHeaders|TestNeutrinoImportThenP2PSync|TestNeutrinoSyncWithHeadersImport|TestNeutrinoSyncWithoutHeadersImport|TestWorkManagerProgressTimeoutFailuresDontReset'
 cp $SRC/demo_test.go $WT/$PKG/zz_seeded_demo_test.go
-( cd $MODDIR && timeout 600 go1.26.8 test -vet=off -count=1 -run "$RX" $TESTPKG ) > /tmp/sv-$ID.clean.log 2>&1; CLEAN=$?
+( cd $MODDIR && timeout 600 go1.26.8 test $RACE -vet=off -count=1 -run "$RX" $TESTPKG ) > /tmp/sv-$ID.clean.log 2>&1; CLEAN=$?
 git -C $WT apply $SRC/patch.diff || { echo "SEED $ID: patch does not apply"; exit 3; }
 ( cd $WT && go1.26.8 build ./... && cd cache && go1.26.8 build ./... ) > /tmp/sv-$ID.build.log 2>&1 || { echo "SEED $ID: mutant does not build"; tail -3 /tmp/sv-$ID.build.log; exit 3; }
-( cd $MODDIR && timeout 600 go1.26.8 test -vet=off -count=1 -run "$RX" $TESTPKG ) > /tmp/sv-$ID.mut.log 2>&1; MUT=$?
+( cd $MODDIR && timeout 600 go1.26.8 test $RACE -vet=off -count=1 -run "$RX" $TESTPKG ) > /tmp/sv-$ID.mut.log 2>&1; MUT=$?
 rm $WT/$PKG/zz_seeded_demo_test.go
 ( cd $WT && timeout 1500 go1.26.8 test -vet=off -count=1 -timeout 20m -skip "$SKIP" ./... && cd cache && timeout 600 go1.26.8 test -vet=off -count=1 ./... ) > /tmp/sv-$ID.suite.log 2>&1; SUITE=$?
 echo "SEED $ID: demo clean rc=$CLEAN (want 0), demo mutant rc=$MUT (want !=0), suite on mutant rc=$SUITE (want 0)"
